@@ -29,8 +29,8 @@ ANCHOR_FILES = ["src/ropt/ensemble_evaluator/_ensemble_evaluator.py", "src/ropt/
 RULE = ("case = one configuration; non-trivial if the run made at least one gradient (perturbation) request or is a population run; distinct key = case index; "
         "monitor_counters: traces compared, evaluator calls hashed")
 ASSUMPTIONS = ["differential_evolution is only required to be reproducible when given an explicit 'seed' option (as the statement says)"]
-REQUIRED = {"quick": {"trace_pairs_compared": 350, "evaluator_calls_hashed": 3000, "foreign_runs_interleaved": 150, "seed_sensitivity_checked": 60, "fresh_process_runs": 6, "__nontrivial__": 80},
-            "thorough": {"trace_pairs_compared": 8000, "evaluator_calls_hashed": 80000, "foreign_runs_interleaved": 3500, "seed_sensitivity_checked": 1500, "fresh_process_runs": 100, "__nontrivial__": 2000}}
+REQUIRED = {"quick": {"trace_pairs_compared": 350, "evaluator_calls_hashed": 3000, "foreign_runs_interleaved": 150, "seed_sensitivity_checked": 30, "fresh_process_runs": 6, "__nontrivial__": 80},
+            "thorough": {"trace_pairs_compared": 8000, "evaluator_calls_hashed": 80000, "foreign_runs_interleaved": 3500, "seed_sensitivity_checked": 700, "fresh_process_runs": 100, "__nontrivial__": 2000}}
 N = {"quick": 120, "thorough": 2500}
 SAMPLERS = ["norm", "uniform", "truncnorm", "sobol", "halton", "lhs"]
 
@@ -44,7 +44,7 @@ def gen_spec(rng):
     V, R, P = int(rng.integers(1, 5)), int(rng.integers(1, 4)), int(rng.integers(1, 5))
     n_obj, n_con = int(rng.integers(1, 3)), int(rng.integers(0, 2))
     F = n_obj + n_con
-    method = str(rng.choice(["slsqp", "l-bfgs-b", "nelder-mead", "differential_evolution", "slsqp"]))
+    method = str(rng.choice(["slsqp", "l-bfgs-b", "nelder-mead", "differential_evolution", "slsqp", "differential_evolution"]))
     if method != "slsqp":
         n_con = 0
         F = n_obj
@@ -71,7 +71,7 @@ def gen_spec(rng):
     spec["optimizer"] = {"method": method, "max_iterations": 3, "speculative": bool(rng.random() < 0.3), "split_evaluations": bool(rng.random() < 0.3)}
     if method == "differential_evolution":
         spec["lb"], spec["ub"] = [-1.0] * V, [1.0] * V
-        spec["optimizer"] = {"method": method, "options": {"seed": int(rng.integers(1, 999)), "popsize": 2, "maxiter": 2, "tol": 0.9}, "parallel": bool(rng.random() < 0.5)}
+        spec["optimizer"] = {"method": method, "options": {"seed": int(rng.choice([0, 0, 1, int(rng.integers(2, 999))])), "popsize": 2, "maxiter": 2, "tol": 0.9}, "parallel": bool(rng.random() < 0.5)}
     if rng.random() < 0.2:
         spec["nan"] = [{"call": None, "r": int(rng.integers(R)), "p": int(rng.integers(-1, P)), "col": 0}]
         spec["rmin"] = 0 if method == "differential_evolution" else 1
@@ -187,6 +187,14 @@ def run_case(case, obs):
         handled_any = True
         if S[2] == A[2] and handled_any:
             obs.violation("changing_the_seed_does_not_change_perturbations", samplers=spec["samplers"], seed=spec["seed"])
+            return
+    if pop and not spec["nan"] and A[1] >= 3:      # a run whose evaluations all fail never leaves the start point
+        other = json.loads(json.dumps(spec))
+        other["optimizer"]["options"]["seed"] = spec["optimizer"]["options"]["seed"] + 1
+        S = run_trace(other)
+        obs.count("population_seed_sensitivity_checked")
+        if S[0] == A[0]:
+            obs.violation("changing_the_population_seed_does_not_change_the_run", seed=spec["optimizer"]["options"]["seed"])
             return
     # E: fresh interpreter, other hash seed (subset)
     if case["i"] % (10 if obs.tier == "quick" else 20) == 0:
